@@ -32,6 +32,7 @@ vars == <<l, tp, raw, eps, frames, nrcv, hist, mm, nv>>
 NewHist == [eof |-> FALSE, pipe |-> FALSE, wref |-> FALSE, taint |-> FALSE, err |-> 0, nok |-> 0, pc |-> ZeroCnt, refused |-> FALSE]
 
 TcpBased(t) == t \in {"tcp", "tls", "btcp", "btls"}
+TlsRecMax == 16384      \* plaintext bytes per TLS record
 Other(e) == 3 - e
 
 Init == /\ l = 1 /\ tp = "none" /\ raw = FALSE
@@ -107,6 +108,10 @@ HistChecks(ln, e) ==
    Chk(~(okR /\ msgT /\ ln.ok = 1) \/ ln.mi = h.nok + 1, "C01.order", h.nok + 1, IF isR THEN ln.mi ELSE 0),
    Chk(~(okR /\ msgT /\ ln.ok = 1 /\ ~raw) \/ ln.ret = Min(ln.fl, ln.cap), "C01.len", 0, IF isR THEN ln.ret ELSE 0),
    Chk(~(isS /\ Stream(tp) /\ ln.len > 0) \/ ln.ret = -1 \/ (ln.ret >= 1 /\ ln.ret <= ln.len), "C02.range", ln.len, ln.ret),
+   \* C02 (btls): a send that reports EAGAIN may leave at most ONE partly written TLS record behind (OpenSSL's captured
+   \* record, the recorded finding btls_capture); complete records of the refused buffer on the wire are bytes of a
+   \* failed call in the stream
+   Chk(~(isS /\ tp = "btls" /\ ln.ret = -1 /\ ln.err = EAGAIN) \/ ln.k[1] <= TlsRecMax + 512, "C02.refused_written", TlsRecMax + 512, ln.k[1]),
    \* C07: never an oversized or empty delivery
    Chk(~(isR /\ msgT) \/ ln.ret <= MaxMsg, "C07.oversize", MaxMsg, ln.ret),
    \* C06: terminal conditions stick
